@@ -360,8 +360,21 @@ func runRetry(l *fsLayout, attempt func(quiet time.Duration) *fsObs) *fsObs {
 	for try := 0; try < 2 && obs.Forced && obs.Returned && (!tails || len(obs.Calls) < n); try++ {
 		obs = attempt(time.Second)
 	}
+	if !obs.Returned && obs.Panic == "" {
+		// "Run did not return within the watchdog" is only reported when it repeats under a watchdog that a
+		// starved test process cannot plausibly miss (the first one is 2 s; the machine may be oversubscribed)
+		fsHangWatch = 20 * time.Second
+		again := attempt(time.Second)
+		fsHangWatch = 2 * time.Second
+		if again.Returned {
+			obs = again
+		}
+	}
 	return obs
 }
+
+// fsHangWatch: how long Run may take to return once the source is terminating
+var fsHangWatch = 2 * time.Second
 
 // ---------------------------------------------------------------- Coq terms
 
@@ -642,7 +655,7 @@ func c10Exec(raw json.RawMessage) (*Case, error) {
 				}
 			}
 		}
-		return runWatched(fs, rec, quiet, 2*time.Second)
+		return runWatched(fs, rec, quiet, fsHangWatch)
 	}
 	obs := runRetry(l, attempt)
 
